@@ -195,6 +195,9 @@ func runC11(r *mon.Run, replay string) {
 	r.Floor("multistep_continuation_faults_delivered", 20)
 	r.Floor("cases_with_several_100_block_requests", 8)
 	r.Floor("hit_and_run_pairs_judged", 10)
+	r.Floor("relays_from_victim_judged", 30)
+	r.Floor("honest_prefix_episodes_with_rolled_back_reorg", 4)
+	r.Floor("cases_with_honest_witness_on_victim_tip", 20)
 }
 
 func genC11Cases(r *mon.Run) []c11Case {
@@ -268,6 +271,15 @@ func genC11Cases(r *mon.Run) []c11Case {
 				// the invalid block closes a full 100-block request
 				stream++
 				cases = append(cases, c11Case{Stream: stream, Target: f.Target, Fault: f.Name, Pos: "last", Regime: f.Regime, Pair: true, Long: true})
+			}
+		}
+		// the honest chain extended by one invalid block, then the honest chain alone
+		for _, reg := range []string{"below", "across", "above"} {
+			for _, kc := range []string{"k=1", "k=several", "k=chunks"} {
+				for _, first := range []bool{false, true} {
+					stream++
+					cases = append(cases, c11Case{Stream: stream, Target: "SendV2Blocks", Fault: "honest-prefix-then-invalid-extension", Pos: kc, Regime: reg, Mix: "B+H", Phased: true, HonestDials: first, Special: "honest-prefix"})
+				}
 			}
 		}
 		// multi-chunk scenarios around the 100-block request split
@@ -1183,6 +1195,9 @@ func runByzCaseResult(r *mon.Run, cc c11Case) (res byzResult) {
 	case "instant-sync":
 		runInstantSync(r, cc)
 		return
+	case "honest-prefix":
+		runHonestPrefix(r, cc)
+		return
 	}
 	sc := buildScene(r, &cc)
 	if sc.skip != "" {
@@ -1230,6 +1245,24 @@ func runByzCaseResult(r *mon.Run, cc c11Case) (res byzResult) {
 	}
 	installHooks(sc, b1)
 	byz := []*p2plab.Byz{b1}
+	// with an honest peer in the case, the victim's own conduct towards honest
+	// peers is observed too: a lab observer (honest, at the victim's tip) records
+	// every relay RPC the victim sends it, and in the relay rows a second real
+	// node sits on the victim's tip, where a forwarded block attaches
+	var obs *p2plab.Byz
+	var wit *p2plab.Node
+	if withH {
+		if o, err := p2plab.NewByz("observer", p2plab.HonestIP(slot, 3), t, sc.vTip); err == nil {
+			obs = o
+			defer obs.Close()
+		}
+		if strings.HasPrefix(f.Target, "Relay") || f.Target == "SendTransactions" {
+			if w, err := mk("witness", 2, sc.vTip); err == nil {
+				wit = w
+				all = append(all, w)
+			}
+		}
+	}
 	if cc.Mix == "2B+H" {
 		b2, err := p2plab.NewByz("byz2", p2plab.ByzIP(slot, 1), t, sc.hTip)
 		if err == nil {
@@ -1258,6 +1291,16 @@ func runByzCaseResult(r *mon.Run, cc c11Case) (res byzResult) {
 			b.Close()
 		}
 	}()
+	if obs != nil {
+		if err := obs.Dial(v.Addr); err != nil {
+			r.Count("observer_dial_errors", 1)
+		}
+	}
+	if wit != nil {
+		if err := wit.Connect(v.Addr); err != nil {
+			r.Count("witness_connect_errors", 1)
+		}
+	}
 
 	connectByz := func(b *p2plab.Byz, victimDials bool) {
 		if victimDials {
@@ -1530,6 +1573,29 @@ func runByzCaseResult(r *mon.Run, cc c11Case) (res byzResult) {
 			r.Violation(sig, "with an honest peer holding the heaviest valid chain connected, the victim did not reach that chain within the bound", cc, detail())
 		}
 	}
+	if obs != nil {
+		fs, judged := auditRelays(t, obs, rng)
+		r.Count("relays_from_victim_received_by_observer", int(obs.Relayed.Load()))
+		r.Count("relays_from_victim_judged", judged)
+		for _, fd := range fs {
+			r.Violation(fd.Sig+":"+f.Target+"/"+f.Name, fd.What, cc, map[string]any{"finding": fd.Detail, "run": detail()})
+		}
+	}
+	if wit != nil {
+		r.Count("cases_with_honest_witness_on_victim_tip", 1)
+	}
+	for _, hn := range []*p2plab.Node{h, wit} {
+		if hn == nil {
+			continue
+		}
+		if bans := hn.PS.BansFor(v.IP); len(bans) > 0 {
+			fmt.Printf("note: C11 stream=%d %s banned the victim: %v\n", cc.Stream, hn.Name, bans)
+			d := detail()
+			d["bans_of_victim"] = bans
+			d["banning_node"] = reportOf(hn)
+			r.Violation("honest-peer-banned-victim:"+f.Target+"/"+f.Name, "an honest node called PeerStore.Ban for the victim's address ("+banReasonClass(bans[0].Reason)+")", cc, d)
+		}
+	}
 	if strings.HasPrefix(f.Name, "multistep-") && delivered {
 		r.Count("multistep_continuation_faults_delivered", 1)
 		r.SetAdd("multistep_rows_delivered", key+"/"+cc.Regime+fmt.Sprint("/long=", cc.Long))
@@ -1556,6 +1622,12 @@ func runByzCaseResult(r *mon.Run, cc c11Case) (res byzResult) {
 			r.Violation(fd.Sig+":honest-peer", fd.What, cc, map[string]any{"finding": fd.Detail, "run": detail()})
 		}
 		countMonitor(r, h)
+	}
+	if wit != nil {
+		for _, fd := range wit.Mon.Final() {
+			r.Violation(fd.Sig+":honest-witness", fd.What, cc, map[string]any{"finding": fd.Detail, "run": detail()})
+		}
+		countMonitor(r, wit)
 	}
 	countMonitor(r, v)
 	if cc.Stream%29 == 0 {
